@@ -478,6 +478,32 @@ theorem translated_mrDeliverMessage (σ : Env) :
     obs Trans.mrDeliverMessage σ = TransExpected.mrDeliverMessage σ := by
   by_cases h : σ "r.notifier#0" = 0 <;> minigo_simp [TransExpected.mrDeliverMessage, Trans.mrDeliverMessage, h]
 
+
+/-- `for _, wireMsg := range r.initBuffer { body }` (the release of the start-up backlog): the body once per buffered record;
+`enc` names messages by integers; the deliveries made, in iteration order -/
+def rangeBuffer (body : S) (enc : Msg → Int) : List (Bytes × Wire) → Env → List Int
+  | [], _ => []
+  | (_, w) :: rest, σ =>
+    let r := run body (upd (upd σ "wireMsg.Acknowledged" (if w.ack then 1 else 0)) "wireMsg.Message" (enc w.msg))
+    ((r.calls.filter (fun c => c.1 == "r.deliverMessage")).flatMap (·.2)) ++ rangeBuffer body enc rest r.env
+
+/-- **the release loop of processInitBuffer = the model's release**: exactly the buffered records that are not
+acknowledgements are delivered, each once, in buffer order -/
+theorem translated_release_loop (enc : Msg → Int) (l : List (Bytes × Wire)) : ∀ σ : Env,
+    rangeBuffer Trans.mrInitBufferBody enc l σ = (l.filter (fun kw => !kw.2.ack)).map (fun kw => enc kw.2.msg) := by
+  induction l with
+  | nil => intro σ; rfl
+  | cons x rest ih =>
+    obtain ⟨k, w⟩ := x
+    intro σ
+    simp only [rangeBuffer]
+    rw [ih]
+    have hb := translated_mrInitBufferBody (upd (upd σ "wireMsg.Acknowledged" (if w.ack then 1 else 0)) "wireMsg.Message" (enc w.msg))
+    have hc : (run Trans.mrInitBufferBody (upd (upd σ "wireMsg.Acknowledged" (if w.ack then 1 else 0)) "wireMsg.Message" (enc w.msg))).calls =
+        (obs Trans.mrInitBufferBody (upd (upd σ "wireMsg.Acknowledged" (if w.ack then 1 else 0)) "wireMsg.Message" (enc w.msg))).calls := rfl
+    rw [hc, hb]
+    cases hw : w.ack <;> simp [hw]
+
 end Translated
 
 theorem closure_unchanged : GeneratedClo.C10 = ExpectedClo.C10 := by rfl
